@@ -13,7 +13,8 @@ RULE = ('random (pipe, data, model) topologies with product ≤ 12, 1–2 blocks
         'with the factors held by each layer\'s inverse worker; after load the holders (factor workers) and their '
         'second-order data are checked; files on disk are listed and read back; the trace matcher checks that all ranks '
         'take part in the same collectives; continued gradients are compared with the unsharded reference implementing '
-        'the C09 load semantics (model-parallel degree 1; degree > 1 is known finding F2); non-trivial = ≥2 ranks')
+        'the C09 load semantics (model-parallel degree 1; degree > 1 is known finding F2); non-trivial = ≥2 ranks'
+        '; float32 inverses with float64 factors; in-place roll-back histories (checkpoint, train, checkpoint, load the first into the same object, train, checkpoint at the same step count) with the truth recomputed per checkpoint')
 TRUSTED = [
     'Lean 4.33 kernel; axioms audited ⊆ {propext, Classical.choice, Quot.sound}',
     'hand-written models KV.NeoxCkpt (gather/merge/restore bookkeeping) and KV.Neox (assignment, C12)',
